@@ -2,10 +2,12 @@
 (* Enumerates Multibyte!Text over every template and every insertion offset (one state each). *)
 EXTENDS Multibyte, Json, TLC
 VARIABLES t, k
-Init == t \in 1..Len(Templates) /\ k = -1
+\* t < 0: glue site -t, k = the separator (states of their own, no successor)
+Init == \/ t \in 1..Len(Templates) /\ k = -1
+        \/ t \in {-i : i \in 1..Len(GlueSites)} /\ k \in 1..Len(GlueSeps)
 \* k in Offsets(t): insertion inside / around the template; k = 1000 + e: file-edge text number e
-Next == k = -1 /\ k' \in Offsets(t) \cup {1000 + e : e \in 1..Len(EdgeTexts(t))} /\ UNCHANGED t
-Emit == k = -1 \/ PrintT("MB " \o ToJson([t |-> t, k |-> k, template |-> Templates[t],
+Next == t > 0 /\ k = -1 /\ k' \in Offsets(t) \cup {1000 + e : e \in 1..Len(EdgeTexts(t))} /\ UNCHANGED t
+Emit == IF t < 0 THEN PrintT("GLUE " \o ToJson([site |-> -t, sep |-> k, src |-> GlueText(-t, k)])) ELSE k = -1 \/ PrintT("MB " \o ToJson([t |-> t, k |-> k, template |-> Templates[t],
                                          src |-> IF k >= 1000 THEN EdgeTexts(t)[k - 1000] ELSE Text(t, k)]))
 \* every offset of every template is produced exactly once (TLC reports the distinct states)
 =============================================================================
